@@ -178,7 +178,7 @@ P("C14", "Push subscriptions deliver at least once until the endpoint accepts", 
 ])
 
 # ---- theorems about the small-step concurrent models (separate files: their names would clash with Model.Server)
-HDR_ACTORS = "From Coq Require Import List NArith Arith Bool Lia.\nImport ListNotations.\nFrom Deltio Require Import Model.ConcActors Proofs.ConcActorsP.\n"
+HDR_ACTORS = "From Coq Require Import List NArith Arith Bool Lia.\nImport ListNotations.\nFrom Deltio Require Import Model.ConcActors Proofs.ConcActorsP Proofs.ConcActorsX.\n"
 HDR_CSUB = "From Coq Require Import List NArith Arith Bool Lia.\nImport ListNotations.\nFrom Deltio Require Import Model.ConcSub Proofs.ConcSubP.\n"
 
 PX("C07", "C07_actors", "Every request terminates: no deadlock between topic and subscription actors", HDR_ACTORS, "ConcActorsP.v", [
@@ -231,4 +231,10 @@ PX("C11", "C11_actors", "Deletion keeps topics and subscriptions consistent with
  ("C11c_attached_only_live", "C11_attached_only_live", "one half: whatever a live topic lists exists and is not deleted"),
  ("C11c_live_are_attached", "C16_attached", "the other half: every existing, undeleted subscription of a live topic is listed"),
  ("C11c_refuted_without_guard", "C11_refuted_without_guard", "the code before fix 2446012: a reachable quiescent state in which a live topic lists a subscription that no longer exists, and a later Publish fails (found on the implementation by harness racestress)"),
+])
+PX("C01", "C01_actors", "Fan-out without loss", HDR_ACTORS, "ConcActorsX.v", [
+ ("C01c_created_is_attached", "created_is_attached", "actor model, every reachable state under every interleaving (arrivals, drops, bursts): once the attach task of a subscription has ended - which is when CreateSubscription returns - the subscription is attached to its topic unless it is marked deleted or the topic is dead; so every Publish the topic handles afterwards posts to it"),
+])
+PX("C10", "C10_actors", "Topic and subscription namespaces behave as atomic maps", HDR_ACTORS, "ConcActorsX.v", [
+ ("C10c_create_observed", "created_is_attached", "concurrent histories: once a CreateSubscription has returned, the topic side observes it at every later moment (until a deletion)"),
 ])
